@@ -1,6 +1,6 @@
 """Loader for the JSON produced by irx, plus CFG utilities (preds, dominators,
 natural loops).  All engines work on these objects."""
-import json, re
+import json, os, re
 from functools import lru_cache
 
 CAST_OPS = {"zext", "sext", "trunc", "bitcast", "ptrtoint", "inttoptr", "addrspacecast"}
@@ -158,6 +158,24 @@ class Block:
         return "<bb%d %s>" % (self.id, self.name)
 
 
+_PROJECT_STRUCTS = None
+
+
+def _project_structs():
+    """struct types of the project itself (reference snapshot known_types.json): only their objects are 'the library's objects'"""
+    global _PROJECT_STRUCTS
+    if _PROJECT_STRUCTS is None:
+        import json as _json
+        try:
+            _PROJECT_STRUCTS = set(_json.load(open(os.path.join(os.path.dirname(os.path.abspath(__file__)), "known_types.json"))))
+        except Exception:
+            _PROJECT_STRUCTS = set()
+    return _PROJECT_STRUCTS
+
+
+PRUNED_NULL_GUARDS = set()      # (function, line) of `object parameter == NULL` branches not followed in this run (assumption A-nonnull-objects)
+
+
 class Function:
     def __init__(self, mod, d):
         self.mod = mod
@@ -207,6 +225,8 @@ class Function:
         ty = pd.ty
         if not (ty.startswith("%struct.") and ty.endswith("*") and not ty.endswith("**")):
             return None
+        if ty[:-1] not in _project_structs():
+            return None                 # e.g. FILE *: NULL is a meaningful argument there (do_decode(reader, NULL) decodes without writing)
         return t.succs[0] if c.pred == "eq" else t.succs[1]
 
     def _cfg(self):
@@ -221,6 +241,7 @@ class Function:
                     if dead is not None:
                         s = [x for x in s if x != dead]
                         self.pruned_null_edges.append((b.id, dead))
+                        PRUNED_NULL_GUARDS.add((self.cname, getattr(t, "line", lambda: None)() if callable(getattr(t, "line", None)) else None))
                         t.d["succs"] = list(s)
                         t.ops = []
                         t.d["ops"] = []
